@@ -222,6 +222,26 @@ func checkOne(c *mc.Ctx, box orb.Bound, in orb.LineString, open bool) {
 			}
 		}
 	}
+	// closed box: the result is the set of points of the input in the closed box, so every input vertex that lies in
+	// the box (on its boundary included: an isolated contact) is a point of some output piece
+	if !open && len(in) >= 2 { // (a single vertex has no segment; the clipper returns nothing for it, as for an empty line)
+		for vi, p := range in {
+			if !box.Contains(p) {
+				continue
+			}
+			found := false
+			for _, piece := range got {
+				if onInput(orb.LineString(piece), p) || (len(piece) == 1 && piece[0] == p) {
+					found = true
+					break
+				}
+			}
+			if !found {
+				c.Failf("vertex-missing", "input vertex %d = %v lies in the closed box but in no output piece | %s", vi, p, desc())
+				break
+			}
+		}
+	}
 	if len(flat) != len(want) {
 		c.Failf("portions", "output has %d non-degenerate segments, the exact clip has %d: want %v | %s", len(flat), len(want), want, desc())
 		return
